@@ -7,6 +7,40 @@
 use crate::util::{Opts, Out, Rng};
 use feoxdb::utils::allocator::{AlignedBuffer, FeoxAllocator};
 
+/// child: FeoxAllocator::allocate / deallocate round trips around the small/large split (a block must
+/// go back through the deallocator that matches its allocator); prints the size before each series so
+/// that the parent can name the one that killed the process
+pub fn allocchild(opts: &Opts) -> i32 {
+    use std::io::Write;
+    let seed = opts.u64("seed", 1);
+    let mut rng = Rng::new(seed.wrapping_mul(7_368_787));
+    let mut sizes: Vec<usize> = vec![1, 8, 64, 4095, 4096, 4097, 8191, 8192, 8193, 16384, 32768, 1 << 20];
+    for _ in 0..12 {
+        sizes.push(rng.range(1, 40_000) as usize);
+    }
+    let before = FeoxAllocator::get_allocated();
+    for size in sizes {
+        println!("size={size}");
+        let _ = std::io::stdout().flush();
+        for round in 0..40u8 {
+            match FeoxAllocator::allocate(size) {
+                Ok(ptr) => {
+                    let s = unsafe { std::slice::from_raw_parts_mut(ptr.as_ptr(), size) };
+                    s.fill(round);
+                    std::hint::black_box(s.iter().map(|b| *b as u64).sum::<u64>());
+                    FeoxAllocator::deallocate(ptr, size);
+                }
+                Err(e) => {
+                    println!("allocate-failed size={size} {e}");
+                    return 0;
+                }
+            }
+        }
+    }
+    println!("alloc-ok counter=+{}", FeoxAllocator::get_allocated() - before);
+    0
+}
+
 pub fn run(opts: &Opts) -> i32 {
     let dir = opts.str("out", "/verif/.build/cases/abuf");
     let seed = opts.u64("seed", 1);
@@ -74,6 +108,21 @@ pub fn run(opts: &Opts) -> i32 {
             }
         }
         out.emit3(&case, &res, &verdict);
+    }
+    // the allocator's small/large split, in a child process (a mismatched free may abort it)
+    for k in 0..3u64 {
+        let outp = crate::img::run_child(&["abufallocchild".into(), format!("seed={}", seed + k)], 120).unwrap_or_else(|| "SPAWN-FAILED".into());
+        let last_size = outp.lines().filter(|l| l.starts_with("size=")).last().unwrap_or("size=?").to_string();
+        let verdict = if outp.lines().any(|l| l.starts_with("alloc-ok counter=+0")) {
+            "ok".to_string()
+        } else if outp.contains("alloc-ok") {
+            format!("FAIL allocation-counter-not-back-to-its-start {}", outp.lines().last().unwrap_or(""))
+        } else if outp.contains("allocate-failed") {
+            "ok".to_string()
+        } else {
+            format!("FAIL allocate-deallocate-round-trip-killed-the-process at {last_size} ({})", outp.lines().last().unwrap_or("").chars().take(80).collect::<String>())
+        };
+        out.emit3(&format!("note abuf-allocator-round-trips seed={}", seed + k), "note", &verdict);
     }
     let total = out.finish();
     println!("cases={total}");
